@@ -16,4 +16,5 @@ CONSTANTS
   DeleteDropsPacked = FALSE
 INVARIANT TypeOK
 INVARIANT RefsTransparent
+VIEW view
 CHECK_DEADLOCK FALSE
